@@ -716,6 +716,47 @@ def chain_trace_stage(ev, runs, calls):
         os.remove(tr)
 
 
+def monitor_stage(ev):
+    """the repository's own test-suite as validated traces: built with the `verif` hooks, every App entry point
+    logs storage digests; TLC checks the frame conditions of spec/Monitor.tla on every event"""
+    d = os.path.join(OUT, f"{ev.pid}-monitor")
+    subprocess.run(["rm", "-rf", d])
+    os.makedirs(d)
+    p = sh(["cargo", "test", "--offline", "--all-features"], cwd="/repo", timeout=1500,
+           env={"CW_MT_VERIF_TRACE": d, "CARGO_NET_OFFLINE": "true"})
+    files = sorted(glob.glob(os.path.join(d, "*.ndjson")))
+    if not files:
+        raise ToolError("the monitored test-suite produced no trace:\n" + p.stdout[-1500:] + p.stderr[-1500:])
+    tr = os.path.join(OUT, f"{ev.pid}-monitor.ndjson")
+    n = 0
+    kinds = {}
+    with open(tr, "w") as f:
+        for fn in files:
+            f.write('{"ev":"reset","kind":"","ok":true,"pre":"","post":""}\n')
+            for line in open(fn):
+                e = json.loads(line)
+                if ev.pid == "C01" and e["ev"] != "tx":
+                    continue
+                if ev.pid == "C10" and e["ev"] != "query":
+                    continue
+                f.write(line)
+                n += 1
+                k = f'{e["kind"]}:{"ok" if e["ok"] else "err"}'
+                kinds[k] = kinds.get(k, 0) + 1
+    ok, res = validate_trace("Monitor.tla", "trace/Monitor.cfg", tr, f"{ev.pid}-monitor", 600)
+    ev.runs.append({"stage": "repository test-suite under the monitor hooks (spec/Monitor.tla)", "test_threads_with_events": len(files),
+                    "events": n, "by_kind": kinds, "accepted": ok})
+    ev.traces += len(files)
+    ev.evaluations += n
+    if not ok:
+        keep = os.path.join(VIOL, f"{ev.pid}-monitor.ndjson")
+        os.replace(tr, keep)
+        ev.violations.append((keep, {"monitor": [l for l in res.log.splitlines() if "MISMATCH" in l][:2]}))
+    else:
+        os.remove(tr)
+    subprocess.run(["rm", "-rf", d])
+
+
 def check_chain(tier, ev):
     pid = ev.pid
     c = CHAIN[pid]
@@ -736,6 +777,8 @@ def check_chain(tier, ev):
     ev.exhaustive = True
     if pid in TRACE_FOCUS:
         chain_trace_stage(ev, 40 if tier == "quick" else 400, 25)
+    if pid in ("C01", "C10"):
+        monitor_stage(ev)
 
 
 # ---- staking ------------------------------------------------------------------------------------
@@ -821,6 +864,7 @@ TRACE_SPEC = {"C06": ("trace/Trace_Overlay.tla", "trace/Trace_Overlay.cfg"),
               "C07": ("trace/Trace_Prefixed.tla", "trace/Trace_Prefixed.cfg"),
               "C09": ("trace/Trace_Bank.tla", "trace/Trace_Bank.cfg"),
               "C18": ("trace/Trace_Bech32.tla", "trace/Trace_Bech32.cfg")}
+MONITOR_SPEC = ("Monitor.tla", "trace/Monitor.cfg")
 for _p in ("C01", "C02", "C03", "C04", "C05", "C08", "C10", "C11", "C12", "C13", "C17"):
     TRACE_SPEC[_p] = ("trace/Trace_Chain.tla", "trace/Trace_Chain.cfg")
 
@@ -845,7 +889,8 @@ def main():
             pid, path = sys.argv[2], sys.argv[3]
             build_harness()
             if path.endswith(".ndjson") and pid in TRACE_SPEC:
-                ok, res = validate_trace(TRACE_SPEC[pid][0], TRACE_SPEC[pid][1], path, "replay")
+                spec = MONITOR_SPEC if "monitor" in os.path.basename(path) else TRACE_SPEC[pid]
+                ok, res = validate_trace(spec[0], spec[1], path, "replay")
                 print(res.log[-1500:])
                 sys.exit(0 if ok else 1)
             if path.endswith(".log"):
